@@ -254,6 +254,32 @@ func (x *Exec) frontBuiltin(env *SpecEnv, st *State, name string, args []TV) (TV
 			return TV{VScalar{g.maskOf(env, st, args[0], nil)}, types.Typ[types.Int]}, true
 		}
 		return TV{}, false
+	case "urlstring":
+		// urlstring(s): (*url.URL).String() of the URL parsed from s (the function the code sees)
+		if len(args) == 1 {
+			f := x.sym.Func("url.String", []Sort{SStr}, SStr)
+			return TV{VScalar{App(SStr, f, env.term(args[0]))}, types.Typ[types.String]}, true
+		}
+		return TV{}, false
+	case "jsonmap1":
+		// jsonmap1(k, v): json.Marshal(map[string]string{k: v})
+		if len(args) == 2 {
+			m := App(SMapSS, "store", Term{"smap.empty", SMapSS}, env.term(args[0]), App(SOptS, "some", env.term(args[1])))
+			return TV{VScalar{App(SBytes, "tojson", m)}, nil}, true
+		}
+		return TV{}, false
+	case "jsonstr":
+		// jsonstr(data): the Go string a JSON string value decodes to
+		if len(args) == 1 {
+			f := x.sym.Func("json.str", []Sort{SBytes}, SStr)
+			return TV{VScalar{App(SStr, f, env.term(args[0]))}, types.Typ[types.String]}, true
+		}
+		return TV{}, false
+	case "upper":
+		if len(args) == 1 {
+			return TV{VScalar{App(SStr, "str.upper", env.term(args[0]))}, types.Typ[types.String]}, true
+		}
+		return TV{}, false
 	case "lower":
 		// lower(s): strings.ToLower(s) (the same uninterpreted function the code sees)
 		if len(args) == 1 {
